@@ -336,4 +336,28 @@ def World.run (w : World) : List Ev → Option World
 /-- the arrival order the driver uses: senders in ascending rank order -/
 def stdArrivals (sys : System) : Nat → List Nat := fun p => senders sys p
 
+/-! ### the configuration in force -/
+
+/-- the configuration of one `RemoteIndices` object: which index set objects it refers to, `includeSelf`, the hints -/
+structure Config where
+  srcObj : Nat
+  tgtObj : Nat
+  incl : Bool
+  hints : List Nat
+  deriving DecidableEq, Repr
+
+def RankW.config (r : RankW) : Config := ⟨r.srcObj, r.tgtObj, r.incl, r.hints⟩
+
+/-- effect of one event on the configuration of rank `p`: only the configuration calls addressed to `p` change it, and
+    each *replaces* what it sets by its arguments — `setIndexSets` both index sets and the hints (an empty hint list,
+    i.e. the omitted argument, included), `setNeighbours` the hints, `setIncludeSelf` the flag -/
+def Config.step (p : Nat) (c : Config) : Ev → Config
+  | .setSets q s t h => if q = p then { c with srcObj := s, tgtObj := t, hints := h } else c
+  | .setNb q h => if q = p then { c with hints := h } else c
+  | .setIncl q b => if q = p then { c with incl := b } else c
+  | _ => c
+
+/-- the configuration of rank `p` after a history: that of the last calls addressed to it (else the constructor's) -/
+def Config.after (p : Nat) (c : Config) (evs : List Ev) : Config := evs.foldl (Config.step p) c
+
 end DV.C04.F
